@@ -1338,6 +1338,13 @@ mod expression_parser {
                 // `(a,)` is a parenthesized expression with a trailing comma, not a tuple of size 1.
                 return tuple_elements.pop().unwrap();
               }
+              if let Some(node) = tuple_elements.get(MAX_STRUCT_SIZE) {
+                parser.error_set.report_invalid_syntax_error(
+                  node.loc(),
+                  format!("Maximum allowed tuple size is {MAX_STRUCT_SIZE}"),
+                );
+              }
+              tuple_elements.truncate(MAX_STRUCT_SIZE);
               let loc = peeked_loc.union(&right_parenthesis_loc);
               return expr::E::Tuple(
                 expr::ExpressionCommon {
